@@ -8,6 +8,24 @@ def run(ctx):
     nprog = 120 if ctx.quick else 1500
     kw = {} if ctx.quick else {"walks": 10, "walk_len": 30, "max_traces": 80}
     traces, errors, srcs, ntests = p_v2judge.collect(ctx, nprog, seed_offset=50, explore_kw=kw)
+    # ColangSM: all histories (bounded) at specification level with the lifetime properties as invariants / action
+    # properties, every reachable specification state replayed into the real interpreter; the recorded traces are judged too
+    import json
+    from harness import colangsm
+    csm = colangsm.explore(ctx, 60 if ctx.quick else 400, 3 if ctx.quick else 4, 1, seed_offset=900)
+    if csm["errors"]:
+        raise RuntimeError("ColangSM: TLC failed on %d programs: %s" % (len(csm["errors"]), csm["errors"][0]))
+    ctx.drift += csm["drift"]
+    for d in csm["drift_samples"][:3]:
+        print("DRIFT C06 ColangSM vs interpreter: %s" % json.dumps(d, default=str)[:1500])
+    c06viol = [v for v in csm["spec_violations"] if colangsm.SERVES.get(v["invariant"]) == "C06"]
+    for sv in c06viol:
+        ctx.note("ColangSM design-level counterexample to %s (program follows)\n%s\n%s" % (sv["invariant"], sv["program"], sv["counterexample"][:1500]))
+    ctx.log("ColangSM: %d programs, %d spec states / %d transitions (L1S, L2S, L2bS, L2cS: %d counterexamples), %d states replayed, drift %d" % (
+        csm["programs"], csm["states"], csm["transitions"], len(c06viol), csm["compared"], csm["drift"]))
+    for t in csm["traces"]:
+        srcs.setdefault(t["origin"], "")
+    traces += csm["traces"]
     steps = sum(len(t["steps"]) for t in traces)
     ctx.log("%d traces / %d recorded states (%d from the repository's tests)" % (len(traces), steps, ntests))
     verdicts, stats = p_v2judge.judge(ctx, traces)
@@ -35,7 +53,9 @@ def run(ctx):
                 i, base["events"][:i], t["origin"]), dict(base, step=i, sig={"clause": "L2c", "origin_class": oc}))
     nontrivial = len(set((t["origin"], tuple(p_v2judge.events_of(t))) for t in traces if len(t["steps"]) >= 3))
     return {"level": LEVEL, "coverage": {
-        "states": stats["states"], "transitions": stats["transitions"], "traces_validated_against_impl": len(traces),
+        "states": stats["states"] + csm["states"], "transitions": stats["transitions"] + csm["transitions"], "traces_validated_against_impl": len(traces),
+        "colangsm": {"programs": csm["programs"], "states": csm["states"], "transitions": csm["transitions"], "states_replayed": csm["compared"], "drift": csm["drift"],
+                     "design_properties": ["L1S", "L2S", "L2bS", "L2cS"], "violated": sorted(set(v["invariant"] for v in c06viol))},
         "evaluations": steps, "distinct_nontrivial": nontrivial,
         "rule": "same recorded corpus as C09 (different seeds): L1 (every running instance has a running keeper) on every state, L2 (action life-cycle "
                 "monitor: Stop only for a started, not yet stopped/finished action; at most one Start/Stop) on every trace, L2b (a flow that ends sends Stop to "
